@@ -44,7 +44,9 @@ def required_cells(tier):
             "chain:coupled2": 2, "chain:commuting": 2, "chain:uncoupled": 3,
             "chain-site:last": 2, "record_all:False": 5,
             "control:extended-after-use": 4,
-            "chain:interleaved-additions": 3}
+            "chain:interleaved-additions": 3, "kind:weak": 3,
+            "chain:weak-control": 3, "post-flag:numpy.bool_": 5,
+            "post-flag:int": 5}
 
 
 def cases(tier, seed):
@@ -85,7 +87,8 @@ def run_single(case):
     hp = scen.halfprops(sysd, dt, start, subdiv)
     rho0 = gen.rand_state(rng, d)
     stack = [1, 2, 1, 3][(i // 2) % 4]
-    kinds_all = ["unitary", "channel", "nontp", "identity", "unitary", "left"]
+    kinds_all = ["unitary", "channel", "nontp", "identity", "unitary", "left",
+                 "weak"]
     kinds = [kinds_all[(i + s) % len(kinds_all)] for s in range(stack)]
     if stack > 1:
         kinds = [k if k != "identity" else "unitary" for k in kinds]
@@ -93,11 +96,16 @@ def run_single(case):
     ctrl = oqupy.Control(d)
     off = float(rng.uniform(-0.4, 0.4))
     tkey = float(start + (step + off) * dt)
+    # the flag as a caller may hold it: a Python bool, a numpy bool taken
+    # from a boolean array / comparison, or 0/1
+    flag_kind = ["bool", "numpy.bool_", "bool", "int"][(i // 3) % 4]
+    post_flag = {"bool": bool(post), "numpy.bool_": np.bool_(post),
+                 "int": int(post)}[flag_kind]
     for s in sups:
         if spec == "float":
-            ctrl.add_single(tkey, s, post=post)
+            ctrl.add_single(tkey, s, post=post_flag)
         else:
-            ctrl.add_single(int(step), s, post=post)
+            ctrl.add_single(int(step), s, post=post_flag)
     # a second, unrelated control elsewhere (must not interfere)
     other = None
     if i % 3 == 0 and nsteps >= 3:
@@ -202,9 +210,10 @@ def run_single(case):
     if step == nsteps:
         cells.append("step:last")
     cells += extra_cells
+    cells.append("post-flag:" + flag_kind)
     if i % 3 == 1:
         cells.append("record_all:False")
-    ident = kinds == ["identity"]
+    ident = kinds == ["identity"] or kinds == ["weak"]
     sig = ("single", nenv, step == 0, step == nsteps, post, spec, stack,
            tuple(kinds), sysd["td"])
     return {"violations": violations, "cells": cells,
@@ -279,6 +288,7 @@ def run_chain(case):
     nkeys = int(rng.integers(1, 4))
     used = set()
     interleave = bool(i % 3 == 1)
+    has_weak = False
     stacks = []
     for k in range(nkeys):
         site = [0, n - 1, int(rng.integers(0, n))][k % 3]
@@ -296,7 +306,10 @@ def run_chain(case):
             stack = max(stack, 2)
         sups = []
         for _ in range(stack):
-            kind = str(rng.choice(["unitary", "channel", "nontp", "left"]))
+            kind = str(rng.choice(["unitary", "channel", "nontp", "left",
+                                   "weak"]))
+            if kind == "weak":
+                has_weak = True
             sups.append(scen.random_superop(rng, dims[site], kind))
         stacks.append((site, step, is_post, sups))
         desc.append({"site": site, "step": step, "post": is_post,
@@ -354,6 +367,8 @@ def run_chain(case):
     cells = ["chain", "chain:" + ctype]
     if interleaved:
         cells.append("chain:interleaved-additions")
+    if has_weak:
+        cells.append("chain:weak-control")
     for c in desc:
         cells.append("side:" + ("post" if c["post"] else "pre"))
         cells.append(f"stack:{c['stack']}")
